@@ -77,16 +77,19 @@ Definition tally_write (t : tally) (st : status) (n : nat) (lastok : bool) : tal
   | _, _ => {| t_n := t_n t; t_open := t_open t; t_ok := t_ok t; t_owed := t_owed t; t_dur := false |}
   end.
 
+(* the plugin of action a is entered / returns with outcome o *)
+Definition tally_start (t : tally) : tally :=
+  {| t_n := S (t_n t); t_open := true; t_ok := false; t_owed := t_owed t; t_dur := t_dur t |}.
+Definition tally_end (t : tally) (o : outcome) : tally :=
+  if t_open t
+  then {| t_n := t_n t; t_open := false; t_ok := outcome_ok o; t_owed := t_owed t; t_dur := t_dur t |}
+  else (* the End of an invocation the engine had given up waiting for *)
+       {| t_n := t_n t; t_open := false; t_ok := t_ok t; t_owed := pred (t_owed t); t_dur := t_dur t |}.
+
 Definition tally_step (m : tmap) (e : event) : tmap :=
   match e with
-  | EvStart a =>
-      let t := tlook m a in
-      tput m a {| t_n := S (t_n t); t_open := true; t_ok := false; t_owed := t_owed t; t_dur := t_dur t |}
-  | EvEnd a o =>
-      let t := tlook m a in
-      if t_open t
-      then tput m a {| t_n := t_n t; t_open := false; t_ok := outcome_ok o; t_owed := t_owed t; t_dur := t_dur t |}
-      else tput m a {| t_n := t_n t; t_open := false; t_ok := t_ok t; t_owed := pred (t_owed t); t_dur := t_dur t |}
+  | EvStart a => tput m a (tally_start (tlook m a))
+  | EvEnd a o => tput m a (tally_end (tlook m a) o)
   | EvWrite (OAct a) st n lastok _ => tput m a (tally_write (tlook m a) st n lastok)
   | _ => m
   end.
